@@ -55,6 +55,53 @@ float sym_f32(const char* name) {
 }
 float sym_real(const char* name) { return sym_f32(name); }
 float sym_pi() { return 3.14159265358979f; }
+// independent reference conversions (round to nearest even), written from the IEEE 754 definition
+uint16_t sym_ref_f2h(float x) {
+	uint32_t b;
+	memcpy(&b, &x, 4);
+	uint32_t sign = (b >> 16) & 0x8000, exp = (b >> 23) & 0xFF, man = b & 0x7FFFFF;
+	if (exp == 0xFF)
+		return (uint16_t) (sign | 0x7C00 | (man ? 0x200 | (man >> 13) : 0));
+	int e = (int) exp - 127 + 15;
+	if (e >= 31)
+		return (uint16_t) (sign | 0x7C00);
+	if (e <= 0) {
+		if (e < -10)
+			return (uint16_t) sign;
+		man |= 0x800000;
+		int shift = 14 - e;
+		uint32_t half = man >> shift, rem = man & ((1u << shift) - 1), mid = 1u << (shift - 1);
+		if (rem > mid || (rem == mid && (half & 1)))
+			half++;
+		return (uint16_t) (sign | half);
+	}
+	uint32_t half = ((uint32_t) e << 10) | (man >> 13), rem = man & 0x1FFF;
+	if (rem > 0x1000 || (rem == 0x1000 && (half & 1)))
+		half++;
+	return (uint16_t) (sign | half);
+}
+float sym_ref_h2f(uint16_t h) {
+	uint32_t sign = ((uint32_t) h & 0x8000) << 16, exp = (h >> 10) & 0x1F, man = h & 0x3FF, b;
+	if (exp == 0) {
+		if (man == 0)
+			b = sign;
+		else {
+			int e = -1;
+			do {
+				e++;
+				man <<= 1;
+			} while (!(man & 0x400));
+			b = sign | ((uint32_t) (127 - 15 - e) << 23) | ((man & 0x3FF) << 13);
+		}
+	}
+	else if (exp == 31)
+		b = sign | 0x7F800000 | (man << 13);
+	else
+		b = sign | ((exp - 15 + 127) << 23) | (man << 13);
+	float f;
+	memcpy(&f, &b, 4);
+	return f;
+}
 void sym_bytes(void* p, unsigned long n, const char* name) {
 	for (unsigned long i = 0; i < n; i++)
 		((unsigned char*) p)[i] = (unsigned char) next_val(name, 8);
